@@ -5,7 +5,7 @@ from __future__ import annotations
 import ast
 
 from ..flow import FlowPolicy, exits, pairing, relevant_locals, run_flow
-from ..absint import NONE, App, Const, DictV, FuncV, ListV, ObjV, Out, Sym
+from ..absint import NONE, App, ClassV, Const, DictV, FuncV, ListV, ObjV, Out, Sym
 from ..repo import AnalysisError, body_walk, call_name, norm
 
 LEVEL_TEXT = (
@@ -241,7 +241,7 @@ def decorator_typestate(ctx, program, rid):
         rel = cls_uid.split("::")[0]
         st_uid, sp_uid = f"{cls_uid}.start", f"{cls_uid}.stop"
         summ = {"super().start": lambda i, n, a, k, c, o: [(c, NONE)], "super().stop": lambda i, n, a, k, c, o: [(c, NONE)]}
-        pol = _TypestatePolicy(program, acquire, may_raise_all=False, cancel=False, summaries=summ)
+        pol = _TypestatePolicy(program, acquire, may_raise_all=False, cancel=False, summaries=summ, globals_={cls_uid.split("::")[1]: ClassV(cls_uid.split("::")[1])})
         self_v = ObjV("self", cls_uid.split("::")[1])
         heap0 = {"self.args": ListV((Const("hook1"), ), "list"), "self.webhook_id": Const("hook1"),
                  "self.state_trig_ident": ListV((Const("d.a"),), "set"), "self.dm": ObjV("dm", "DecoratorManager"), "self.name": Const("t")}
@@ -250,6 +250,8 @@ def decorator_typestate(ctx, program, rid):
             tgt = st.target if isinstance(st, ast.AnnAssign) else (st.targets[0] if isinstance(st, ast.Assign) and len(st.targets) == 1 else None)
             if isinstance(tgt, ast.Name) and isinstance(getattr(st, "value", None), ast.Constant):
                 heap0.setdefault(f"self.{tgt.id}", Const(st.value.value))
+            elif isinstance(tgt, ast.Name) and isinstance(getattr(st, "value", None), ast.Dict) and not st.value.keys:
+                heap0.setdefault(f"{cls_uid.split('::')[1]}.{tgt.id}", DictV([]))  # a registry shared by the instances of the class
         out = run_flow(program, st_uid, pol, args={"self": self_v}, heap=dict(heap0))
         ends = [(f"after start() returned", dict(c.heap), any(e[0] == "call" and e[1] == "acquire" for e in c.trace)) for k, c, d in exits(out) if k == "return"]
         if not ends or not any(h for _, _, h in ends):
@@ -257,7 +259,7 @@ def decorator_typestate(ctx, program, rid):
         states = [("before start()", dict(heap0), False)] + pol.snaps + ends
         n = 0
         for where, heap, held in states:
-            pol2 = FlowPolicy(program, may_raise_all=False, cancel=False, summaries=summ, events=[release])
+            pol2 = FlowPolicy(program, may_raise_all=False, cancel=False, summaries=summ, events=[release], globals_={cls_uid.split("::")[1]: ClassV(cls_uid.split("::")[1])})
             o2 = run_flow(program, sp_uid, pol2, args={"self": self_v}, heap=heap)
             bad = None
             for k, c, d in exits(o2):
